@@ -80,7 +80,12 @@ Scn9y(n, ks, g, rev, burst, arrive, cut, silent, again) ==
                                   \o Flat([j \in 1..n |-> IF order[j] \in pk THEN <<[op |-> "step", task |-> PokeTask(ks[order[j]], ids[order[j]]), no_run |-> TRUE]>> ELSE <<>>])
                                   \o <<[op |-> "run"]>>
                              ELSE Flat([j \in 1..n |-> IF order[j] \in pk THEN <<[op |-> "poke", task |-> PokeTask(ks[order[j]], ids[order[j]])]>> ELSE <<>>])
+                    \* cut = 20 + k / 40 + k: a reserved-type frame (21 06 "grease") ahead of the GOAWAY, cut after k bytes with the endpoint running in
+                    \* between; the GOAWAY follows in a delivery of its own (20 + k) or together with the rest of the reserved frame (40 + k)
+                    rsv == <<33, 6, 103, 114, 101, 97, 115, 101>>
                     ga0 == IF cut = 0 THEN <<Goaway>>
+                          ELSE IF cut >= 40 THEN <<[op |-> "deliver", sid |-> 2, bytes |-> SubSeq(rsv, 1, cut - 40)], [op |-> "deliver", sid |-> 2, bytes |-> SubSeq(rsv, cut - 39, 8) \o <<7, 1, 0>>]>>
+                          ELSE IF cut >= 20 THEN <<[op |-> "deliver", sid |-> 2, bytes |-> SubSeq(rsv, 1, cut - 20)], [op |-> "deliver", sid |-> 2, bytes |-> SubSeq(rsv, cut - 19, 8)], Goaway>>
                           ELSE <<[op |-> "deliver", sid |-> 2, bytes |-> SubSeq(<<7, 1, 0>>, 1, cut)], [op |-> "deliver", sid |-> 2, bytes |-> SubSeq(<<7, 1, 0>>, cut + 1, 3)]>>
                     ga == IF again THEN ga0 \o <<Goaway>> ELSE ga0
                     pre == CASE silent = "open" -> <<[op |-> "open_uni", sid |-> 6]>>
@@ -113,6 +118,9 @@ Finish9 == /\ Mode = "C09" /\ out = <<>>
               \/ \E n \in {3, 4} : \E ks \in [1..n -> PokeKinds], g \in 0..n, rev \in BOOLEAN :
                    /\ n > NReq9 /\ (n = 4 => (\A i \in 1..n : ks[i] = ks[1]) /\ g \in {0, 4})
                    /\ out' = Scn9(n, ks, g, rev, TRUE)
+              \* a reserved-type frame cut into two deliveries ahead of the GOAWAY
+              \/ \E n \in 0..(IF NReq9 > 1 THEN 1 ELSE NReq9) : \E ks \in [1..n -> Kinds], g \in 0..(n + 1), k \in {1, 2, 4, 7}, joined \in BOOLEAN :
+                   out' = Scn9x(n, ks, g, FALSE, FALSE, [i \in 1..n |-> i], (IF joined THEN 40 ELSE 20) + k)
            /\ UNCHANGED hist
 
 Next == Extend8 \/ Finish8 \/ Finish9
